@@ -31,6 +31,9 @@ fn text_of(kind: &str, j: usize) -> Vec<u8> {
     }
 }
 
+/// object number of member j (large containers are numbered above the fixed objects of the file)
+fn member_id(n: usize, j: usize) -> u64 { if n > 5 { 100 + j as u64 } else { j as u64 } }
+
 pub fn build(case: &Value) -> Vec<u8> {
     let n = case["n"].as_u64().unwrap() as usize;
     let idx = case["idx"].as_u64().unwrap() as usize;
@@ -47,7 +50,7 @@ pub fn build(case: &Value) -> Vec<u8> {
     let members: Vec<(u64, Vec<u8>)> = (1..=n).map(|j| {
         let mut t = plain[j - 1].clone();
         if case["sep"][j - 1].as_u64().unwrap() == 1 { t.extend_from_slice(sepb); }
-        (j as u64, t)
+        (member_id(n, j), t)
     }).collect();
     // direct twin of the target member
     let o = d.obj(8, 0, &plain[idx - 1]);
@@ -56,7 +59,7 @@ pub fn build(case: &Value) -> Vec<u8> {
     let o = d.obj(7, 0, b"11");
     e.push((7, XEntry::InUse { off: o, gen: 0 }));
     // the stream whose /Length is stored as the case says, and its twin with a direct length
-    let len_txt = match lenstore { "raw" => Some("7 0 R".to_string()), "cmp" => Some(format!("{} 0 R", idx)), _ => None };
+    let len_txt = match lenstore { "raw" => Some("7 0 R".to_string()), "cmp" => Some(format!("{} 0 R", member_id(n, idx))), _ => None };
     let o = d.stream(9, 0, "/S 1", SDATA, len_txt.as_deref(), false);
     e.push((9, XEntry::InUse { off: o, gen: 0 }));
     let o = d.stream(6, 0, "/S 1", SDATA, None, false);
@@ -65,13 +68,14 @@ pub fn build(case: &Value) -> Vec<u8> {
     let o = d.objstm(20, &members, filter, hdrsep, b"", false, "");
     e.push((20, XEntry::InUse { off: o, gen: 0 }));
     for j in 1..=n {
-        e.push((j as u64, XEntry::Compressed { container: 20, idx: j - 1 }));
+        e.push((member_id(n, j), XEntry::Compressed { container: 20, idx: j - 1 }));
     }
     let o = d.obj(21, 0, &catalog_body(22));
     e.push((21, XEntry::InUse { off: o, gen: 0 }));
     let o = d.obj(22, 0, &empty_pages_body());
     e.push((22, XEntry::InUse { off: o, gen: 0 }));
-    d.xref_stream(23, &e, 24, [1, 2, 1], "/Root 21 0 R", None, Split::Min, Filter::None);
+    let size = e.iter().map(|x| x.0).max().unwrap().max(23) + 1;
+    d.xref_stream(23, &e, size, [1, 2, 1], "/Root 21 0 R", None, Split::Min, Filter::None);
     d.buf
 }
 
@@ -80,8 +84,8 @@ pub fn run(cases_path: &str, report_path: &str, _opts: &[String]) {
     let mut rep = Report::default();
     for (ci, case) in cases.iter().enumerate() {
         rep.cases += 1;
-        let idx = case["idx"].as_u64().unwrap();
-        let kind = case["kinds"][idx as usize - 1].as_str().unwrap().to_string();
+        let idx = member_id(case["n"].as_u64().unwrap() as usize, case["idx"].as_u64().unwrap() as usize);
+        let kind = case["kinds"][case["idx"].as_u64().unwrap() as usize - 1].as_str().unwrap().to_string();
         let lenstore = case["lenstore"].as_str().unwrap().to_string();
         if case["n"].as_u64().unwrap() >= 2 || lenstore != "direct" {
             rep.nontrivial += 1;
